@@ -28,6 +28,7 @@ EXPLANATION = (
     "NOT "
     "decided: numeric tightness (float rounding of large integers), NaT/inf, mixed-object inference, survival through "
     "serialisation on data."
+    " (R9) the resolution of an infer_dtype label in the statistics is total over pandas' documented label set: each label is excluded by the guard before the call, a registered string equivalent of the pandas / numpy engine (read from the register_dtype tables), a numpy type name, or the call is fenced by `except TypeError` that keeps the object dtype."
 )
 LEVEL_RULE = "one obligation per statistics key / constructor keyword / data view"
 FLOORS = {"R1": 6, "R2": 9, "R3": 2, "R4": 10, "R5": 8, "R6": 1, "R7": 1}
@@ -443,6 +444,89 @@ def r8_optional_statistics_entries(ctx):
     ctx.stats["optional_statistics_dereferences"] = n
 
 
+# the labels `pandas.api.types.infer_dtype` documents (pandas reference, "Returns"); the table is pandas', not pandera's
+INFER_DTYPE_LABELS = ("string", "bytes", "floating", "integer", "mixed-integer", "mixed-integer-float", "decimal", "complex",
+                      "categorical", "boolean", "datetime64", "datetime", "date", "timedelta64", "timedelta", "time", "period",
+                      "mixed", "unknown-array", "empty")
+# labels that are also numpy type names: `pandas_dtype(label)` resolves them without any registration
+NUMPY_TYPE_NAMES = {"bytes", "complex", "datetime64", "timedelta64"}
+
+
+def _registered_string_equivalents(ctx):
+    out = set()
+    for path in ("pandera/engines/pandas_engine.py", "pandera/engines/numpy_engine.py"):
+        m = ctx.ix.module(path)
+        for c in ast.walk(m.tree):
+            if isinstance(c, ast.Call) and callee_last(c) == "register_dtype":
+                for k in c.keywords:
+                    if k.arg == "equivalents":
+                        out |= {x.value for x in ast.walk(k.value) if isinstance(x, ast.Constant) and isinstance(x.value, str)}
+            if isinstance(c, ast.Call) and callee_last(c) in ("add", "append", "update", "extend") and isinstance(c.func, ast.Attribute) \
+                    and "equivalents" in txt(c.func.value):
+                out |= {x.value for a in c.args for x in ast.walk(a) if isinstance(x, ast.Constant) and isinstance(x.value, str)}
+    return out
+
+
+def r9_infer_dtype_labels_total(ctx):
+    """For object columns the statistics ask `infer_dtype` for a label and resolve it with the engine.  infer_dtype has a
+    documented, finite label set; the resolution has to be total over it: a label is excluded by the guard in front of
+    the call, or it is a registered string equivalent of the pandas / numpy engine (or a numpy type name), or the call
+    is fenced (`except TypeError` that does not re-raise, keeping the object dtype).  Otherwise infer_schema raises
+    TypeError instead of producing a schema: 'empty' is the label of every zero-row object column or index."""
+    from ..cfg import cfg_of
+    from ..util import enclosing_stmt
+    st = ctx.ix.module(STATS)
+    registered = _registered_string_equivalents(ctx)
+    if len(registered) < 20:
+        raise AnalysisError(f"engine string equivalents found: {len(registered)}")
+    n = 0
+    for f in st.all_functions:
+        labels = {t.id for s_ in walk_no_nested(f.node) if isinstance(s_, ast.Assign) and isinstance(s_.value, ast.Call)
+                  and callee_last(s_.value) == "infer_dtype" for t in s_.targets if isinstance(t, ast.Name)}
+        if not labels:
+            continue
+        cfg = cfg_of(f.node)
+        for c in calls_in(f.node):
+            if not (callee_last(c) == "dtype" and c.args and isinstance(c.args[0], ast.Name) and c.args[0].id in labels):
+                continue
+            n += 1
+            ctx.touched(f)
+            stmt = enclosing_stmt(c)
+            node = cfg.node_of(stmt)
+            # fenced?
+            fenced, p_ = False, getattr(stmt, "_parent", None)
+            child = stmt
+            while p_ is not None and not isinstance(p_, (ast.FunctionDef, ast.AsyncFunctionDef)):
+                if isinstance(p_, ast.Try) and child in p_.body:
+                    for h in p_.handlers:
+                        names = {x.id if isinstance(x, ast.Name) else x.attr for x in ast.walk(h.type) if isinstance(x, (ast.Name, ast.Attribute))} if h.type is not None else set()
+                        catches = h.type is None or names & {"TypeError", "Exception", "BaseException"}
+                        reraises = any(isinstance(x, ast.Raise) for x in ast.walk(h))
+                        if catches and not reraises:
+                            fenced = True
+                child, p_ = p_, getattr(p_, "_parent", None)
+            excluded = set()
+            var = c.args[0].id
+            for t, pol in (cfg.guards(node.id) if node is not None else []):
+                if isinstance(t, ast.Compare) and len(t.ops) == 1 and isinstance(t.left, ast.Name) and t.left.id == var:
+                    consts = {x.value for x in ast.walk(t.comparators[0]) if isinstance(x, ast.Constant) and isinstance(x.value, str)}
+                    op = t.ops[0]
+                    if (isinstance(op, (ast.NotEq, ast.NotIn)) and pol) or (isinstance(op, (ast.Eq, ast.In)) and not pol):
+                        excluded |= consts
+                    elif (isinstance(op, (ast.Eq, ast.In)) and pol) or (isinstance(op, (ast.NotEq, ast.NotIn)) and not pol):
+                        excluded |= set(INFER_DTYPE_LABELS) - consts
+            for label in INFER_DTYPE_LABELS:
+                ok = fenced or label in excluded or label in registered or label in NUMPY_TYPE_NAMES
+                why = ("resolution fenced: an unresolvable label keeps the object dtype" if fenced else "excluded by the guard" if label in excluded else
+                       "registered equivalent" if label in registered else "numpy type name")
+                ctx.ob("R9", f, f"{f.short}: infer_dtype label {label!r} resolves (or is handled)", ok,
+                       why if ok else
+                       f"`{txt(c)}` is reached with the label {label!r}, which no engine dtype registers: Engine.dtype raises TypeError and infer_schema produces no schema "
+                       "(pa.infer_schema(pd.DataFrame(columns=['a'])) -> TypeError: data type 'empty' not understood)", f.loc(c))
+    if n < 1:
+        raise AnalysisError("schema statistics: resolution of an infer_dtype label not found")
+
+
 def run(ctx):
     from ..defassign import check_modules
     check_modules(ctx, "R7", ('pandera/schema_inference/pandas.py', 'pandera/schema_statistics/pandas.py'), "escapes infer_schema")
@@ -453,4 +537,5 @@ def run(ctx):
     r4_forwarding(ctx)
     r5_views(ctx)
     r8_optional_statistics_entries(ctx)
+    r9_infer_dtype_labels_total(ctx)
     ctx.assume("Series.min()/max()/isna()/cat.categories have their documented meaning")
